@@ -181,10 +181,11 @@ pub fn select(gen: &'static str, u: u64, n: u64, seed: u64, out: &mut Vec<CaseRe
 
 pub fn fail_json_pub(prop: &str, gen: &str, idx: u64, src: &str, cfg: Cfg, kind: &str, msg: &str, out: &str) -> String {
     format!(
-        "{{\"property\":{},\"gen\":{},\"idx\":{},\"kind\":{},\"msg\":{},\"cfg\":{{\"tab\":{},\"width\":{},\"blank\":{},\"reorder\":{}}},\"src\":{},\"out\":{}}}",
+        "{{\"property\":{},\"gen\":{},\"idx\":{},\"hash\":{},\"kind\":{},\"msg\":{},\"cfg\":{{\"tab\":{},\"width\":{},\"blank\":{},\"reorder\":{}}},\"src\":{},\"out\":{}}}",
         jstr(prop),
         jstr(gen),
         idx,
+        case_hash(src, cfg),
         jstr(kind),
         jstr(msg),
         cfg.tab,
@@ -261,6 +262,33 @@ pub fn oracle(prop: &str, src: &str, source: &Source, cfg: Cfg, out: &str, count
     f
 }
 
+pub fn case_hash(src: &str, cfg: Cfg) -> u64 {
+    hash_str(&format!("{}|{}|{}|{}|{}", src, cfg.tab, cfg.width, cfg.blank, cfg.reorder))
+}
+
+/// `VH_KNOWN` names known-indices.json: {"Cxx": [[gen, idx, hash], …], …} (written by scripts/revalidate.py).
+fn load_known_indices(prop: &str) -> HashSet<(String, u64, u64)> {
+    let mut set = HashSet::new();
+    let Ok(path) = std::env::var("VH_KNOWN") else { return set };
+    let Ok(text) = std::fs::read_to_string(path) else { return set };
+    // minimal parser for the fixed format: one line per property: "Cxx": [["gen",idx,hash],...]
+    for line in text.lines() {
+        let line = line.trim();
+        if !line.starts_with(&format!("\"{}\"", prop)) {
+            continue;
+        }
+        for part in line.split("[\"").skip(1) {
+            let mut it = part.split(|c| c == '"' || c == ',' || c == ']').filter(|x| !x.is_empty());
+            if let (Some(g), Some(i), Some(h)) = (it.next(), it.next(), it.next()) {
+                if let (Ok(i), Ok(h)) = (i.trim().parse::<u64>(), h.trim().parse::<u64>()) {
+                    set.insert((g.to_string(), i, h));
+                }
+            }
+        }
+    }
+    set
+}
+
 fn first_line_diff(a: &str, b: &str) -> (String, String) {
     for (x, y) in a.lines().zip(b.lines()) {
         if x != y {
@@ -305,7 +333,7 @@ fn run_printer(prop: &str, tier: &str, seed: u64, outdir: &str, only: Option<(&'
     let fx = Fixtures::load(FIXTURE_ROOT, true);
     let mut cases: Vec<CaseRef> = vec![];
     if let Some((g, a, b)) = only {
-        for i in a..b {
+        for i in a..b.min(universe_size(g, &fx)) {
             cases.push(CaseRef { gen: g, idx: i });
         }
     } else {
@@ -320,6 +348,8 @@ fn run_printer(prop: &str, tier: &str, seed: u64, outdir: &str, only: Option<(&'
             select("imp", IMP_U, nimp, seed, &mut cases);
         }
     }
+    // indices that failed on the unchanged tree at validation time (known-indices.json)
+    let known: HashSet<(String, u64, u64)> = load_known_indices(prop);
     let nthreads = std::thread::available_parallelism().map(|n| n.get()).unwrap_or(8).min(16);
     let chunk = (cases.len() + nthreads - 1) / nthreads.max(1);
     std::fs::create_dir_all(outdir).unwrap();
@@ -327,6 +357,7 @@ fn run_printer(prop: &str, tier: &str, seed: u64, outdir: &str, only: Option<(&'
         let mut hs = vec![];
         for (ti, part) in cases.chunks(chunk.max(1)).enumerate() {
             let fx = &fx;
+            let known = &known;
             let h = std::thread::Builder::new().stack_size(256 << 20).spawn_scoped(sc, move || {
                 let mut st = Stats::default();
                 let mut fails = vec![];
@@ -366,7 +397,10 @@ fn run_printer(prop: &str, tier: &str, seed: u64, outdir: &str, only: Option<(&'
                     if st.samples.len() < 2 && nontrivial(prop, &src) && src.len() < 300 {
                         st.samples.push(format!("{}:{} tab={} width={} :: {}", c.gen, c.idx, cfg.tab, cfg.width, src));
                     }
-                    let xshape = shapes::excluded(source.root(), prop);
+                    let mut xshape = shapes::excluded(source.root(), prop);
+                    if xshape.is_none() && known.contains(&(c.gen.to_string(), c.idx, case_hash(&src, cfg))) {
+                        xshape = Some("known-index");
+                    }
                     if let Some(id) = xshape {
                         *st.features.entry(format!("excluded-shape:{}", id)).or_default() += 1;
                     }
@@ -415,7 +449,7 @@ fn run_printer(prop: &str, tier: &str, seed: u64, outdir: &str, only: Option<(&'
                     }
                     let _ = failed;
                     // --- case for the Lean driver
-                    if src.len() <= 40000 {
+                    if src.len() <= 40000 && only.is_none() {
                         let mut t = String::new();
                         ser::ser_tree(source.root(), &mut t);
                         writeln!(w, "CASE {} {}", c.gen, c.idx).unwrap();
